@@ -32,6 +32,7 @@ import (
 	"net/http"
 	"net/http/cookiejar"
 	"net/rpc"
+	"net/url"
 	"os"
 	"os/exec"
 	"os/signal"
@@ -70,9 +71,11 @@ type Scenario struct {
 	Waiters      int     `json:"waiters"`       // blocked Lock calls
 	WaitTimeout  int32   `json:"wait_timeout"`  // of the blocked calls, 0 = none
 	Workers      int     `json:"workers"`       // inflight: gRPC request loops
-	Preload      int     `json:"preload"`       // holds of an earlier run: written to the state file with the tree's own store before the first start
-	DelayUs      int     `json:"delay_us"`      // between "situation reached" and the signal
-	LimitMs      int     `json:"limit_ms"`      // bound on signal -> exit (default 5000)
+	// grpc_stalled: what the raw connection to the gRPC port has sent: nothing | preface | half-preface
+	Variant string `json:"variant,omitempty"`
+	Preload int    `json:"preload"`  // holds of an earlier run: written to the state file with the tree's own store before the first start
+	DelayUs int    `json:"delay_us"` // between "situation reached" and the signal
+	LimitMs int    `json:"limit_ms"` // bound on signal -> exit (default 5000)
 	// pause after the listeners are up: main() installs its signal handler only after net.Run has logged that the
 	// servers are started, so a signal sent right then would meet the default disposition (default 30)
 	SettleMs int `json:"settle_ms"`
@@ -102,6 +105,102 @@ type Blocked struct {
 	ErrCode      string  `json:"err_code,omitempty"`      // pb.Error code of the response
 	ErrMessage   string  `json:"err_message,omitempty"`   // pb.Error message of the response
 	TransportErr string  `json:"transport_err,omitempty"` // gRPC status of the call
+}
+
+// Stalled is a raw TCP connection that is open at the signal with a request the server cannot finish serving (or with
+// none at all): a slow or stalled client. It must not keep the server from exiting.
+type Stalled struct {
+	Kind         string  `json:"kind"` // rest_body rest_headers rest_idle grpc_nothing grpc_preface
+	Sent         string  `json:"sent"` // what the client had written when it stalled
+	OpenAtSignal bool    `json:"open_at_signal"`
+	Closed       bool    `json:"closed_by_server"` // EOF / reset seen by the client
+	ClosedMs     float64 `json:"closed_ms_after_signal"`
+	Received     string  `json:"received_after_stall,omitempty"`
+	Hold         bool    `json:"answered_with_hold"` // the bytes received contain "locked":true
+}
+
+type stalledConn struct {
+	obs      *Stalled
+	c        gonet.Conn
+	mu       sync.Mutex
+	buf      bytes.Buffer
+	closedAt time.Time
+	done     chan struct{}
+}
+
+// openStalled dials addr, writes what, and keeps reading until the server closes the connection.
+func openStalled(kind, addr, what string) (*stalledConn, error) {
+	c, err := gonet.DialTimeout("tcp", addr, 2*time.Second)
+	if err != nil {
+		return nil, err
+	}
+	if what != "" {
+		if _, err := io.WriteString(c, what); err != nil {
+			c.Close()
+			return nil, err
+		}
+	}
+	shown := what
+	if len(shown) > 220 {
+		shown = shown[:220] + "..."
+	}
+	sc := &stalledConn{obs: &Stalled{Kind: kind, Sent: shown}, c: c, done: make(chan struct{})}
+	go func() {
+		defer close(sc.done)
+		b := make([]byte, 4096)
+		for {
+			n, err := c.Read(b)
+			sc.mu.Lock()
+			if n > 0 && sc.buf.Len() < 1<<16 {
+				sc.buf.Write(b[:n])
+			}
+			if err != nil {
+				sc.closedAt = time.Now()
+				sc.mu.Unlock()
+				return
+			}
+			sc.mu.Unlock()
+		}
+	}()
+	return sc, nil
+}
+
+// mark: everything received so far belongs to the time before the stall (the answer to a completed request)
+func (sc *stalledConn) mark() {
+	sc.mu.Lock()
+	sc.buf.Reset()
+	sc.mu.Unlock()
+}
+
+func (sc *stalledConn) isClosed() bool {
+	select {
+	case <-sc.done:
+		return true
+	default:
+		return false
+	}
+}
+
+func (sc *stalledConn) finish(signalAt time.Time, wait time.Duration) Stalled {
+	select {
+	case <-sc.done:
+	case <-time.After(wait):
+	}
+	sc.mu.Lock()
+	defer sc.mu.Unlock()
+	o := *sc.obs
+	if !sc.closedAt.IsZero() {
+		o.Closed = true
+		o.ClosedMs = float64(sc.closedAt.Sub(signalAt).Microseconds()) / 1000
+	}
+	r := sc.buf.String()
+	o.Hold = strings.Contains(strings.ReplaceAll(r, " ", ""), `"locked":true`)
+	if len(r) > 300 {
+		r = r[:300] + "..."
+	}
+	o.Received = r
+	sc.c.Close()
+	return o
 }
 
 type ProcObs struct {
@@ -187,6 +286,7 @@ type Result struct {
 	Run1       ProcObs      `json:"run1"`
 	Holds      []Hold       `json:"holds"`
 	Blocked    []Blocked    `json:"blocked"`
+	Stalled    []Stalled    `json:"stalled"`
 	Inflight   *InflightObs `json:"inflight,omitempty"`
 	MustKeys   []string     `json:"must_keys"` // name/key acknowledged, live, no Unlock sent
 	// holds of the earlier run (scenario.preload): only counts and the first few are written out
@@ -569,7 +669,7 @@ func finishObs(p *proc, signalAt time.Time, obs *ProcObs) {
 func condenseDump(d string) string {
 	var keep []string
 	for _, g := range strings.Split(d, "\n\n") {
-		if strings.Contains(g, "imoore76/ldlm") || strings.Contains(g, "main.main") {
+		if strings.Contains(g, "imoore76/ldlm") || strings.Contains(g, "main.main") || strings.Contains(g, "handleRawConn") {
 			lines := strings.Split(g, "\n")
 			if len(lines) > 14 {
 				lines = lines[:14]
@@ -886,6 +986,8 @@ func runScenario(sc Scenario, e env) (res Result) {
 	res.Scenario = sc
 	res.Verdicts = map[string]string{}
 	res.Holds, res.Blocked, res.MustKeys, res.MustNot = []Hold{}, []Blocked{}, []string{}, []string{}
+	res.Stalled = []Stalled{}
+	var stalled []*stalledConn
 	res.Restart.Probes = []Probe{}
 	res.File.Entries = []FileEntry{}
 	var procs []*proc
@@ -1116,6 +1218,111 @@ func runScenario(sc Scenario, e env) (res Result) {
 				setupFail("REST Unlock %s failed: %v", h.Name, err)
 			}
 		}
+	case "rest_stalled_body", "rest_stalled_headers", "rest_idle_keepalive":
+		if !sc.Rest {
+			setupFail("%s needs REST", sc.Client)
+			break
+		}
+		// a REST session that holds a lock; the stalled request belongs to the same session
+		r := newRest(spec.restAddr)
+		closers = append(closers, r.close)
+		if err := r.session(); err != nil {
+			setupFail("%v", err)
+			break
+		}
+		for i := 0; i < sc.NLocks; i++ {
+			name := fmt.Sprintf("r%d", i)
+			locked, key, err := r.tryLock(name, lt(i))
+			if err != nil || !locked {
+				setupFail("REST TryLock %s not granted: %v", name, err)
+				continue
+			}
+			book.add(&Hold{Name: name, Key: key, Size: 1, LockTimeout: lt(i), Via: "rest", AckedUs: book.us()})
+		}
+		r.close() // its keep-alive connection is not the one under test
+		cookie := ""
+		if u, err := url.Parse(r.base); err == nil {
+			for _, c := range r.h.Jar.Cookies(u) {
+				cookie = c.Name + "=" + c.Value
+			}
+		}
+		if cookie == "" {
+			setupFail("no session cookie")
+			break
+		}
+		var st *stalledConn
+		var err error
+		switch sc.Client {
+		case "rest_stalled_body": // headers complete, Content-Length 64, 8 bytes of body, then nothing
+			st, err = openStalled("rest_body", spec.restAddr, "POST /v1/lock HTTP/1.1\r\nHost: "+spec.restAddr+"\r\nCookie: "+cookie+
+				"\r\nContent-Type: application/json\r\nContent-Length: 64\r\n\r\n{\"name\":")
+		case "rest_stalled_headers": // request line and part of the headers, then nothing
+			st, err = openStalled("rest_headers", spec.restAddr, "POST /v1/lock HTTP/1.1\r\nHost: "+spec.restAddr+"\r\nCook")
+		default: // a completed request on a keep-alive connection that then sits idle
+			body := `{"name":"idle-probe"}`
+			st, err = openStalled("rest_idle", spec.restAddr, "POST /v1/lock HTTP/1.1\r\nHost: "+spec.restAddr+"\r\nCookie: "+cookie+
+				"\r\nContent-Type: application/json\r\nContent-Length: "+fmt.Sprint(len(body))+"\r\n\r\n"+body)
+			if err == nil {
+				ok := false
+				for i := 0; i < 500 && !ok; i++ {
+					time.Sleep(4 * time.Millisecond)
+					st.mu.Lock()
+					got := st.buf.String()
+					st.mu.Unlock()
+					if i := strings.Index(got, "\r\n\r\n"); i >= 0 && strings.Contains(got[i:], "}") {
+						ok = true
+						var m struct {
+							Locked bool   `json:"locked"`
+							Key    string `json:"key"`
+						}
+						if j := strings.Index(got[i:], "{"); j >= 0 {
+							_ = json.Unmarshal([]byte(strings.TrimSpace(got[i+j:])), &m)
+						}
+						if m.Locked {
+							book.add(&Hold{Name: "idle-probe", Key: m.Key, Size: 1, Via: "rest", AckedUs: book.us()})
+						} else {
+							setupFail("the request on the keep-alive connection was not granted: %s", tail(got, 200))
+						}
+					}
+				}
+				if !ok {
+					setupFail("no answer on the keep-alive connection")
+				}
+				st.mark()
+			}
+		}
+		if err != nil {
+			setupFail("raw connection to the REST port: %v", err)
+			break
+		}
+		stalled = append(stalled, st)
+		time.Sleep(60 * time.Millisecond) // the server has accepted the connection and is reading
+	case "grpc_stalled":
+		g := newGrpc()
+		if g == nil {
+			break
+		}
+		for i := 0; i < sc.NLocks; i++ {
+			grpcHold(g, fmt.Sprintf("h%d", i), lt(i), i%2 == 1)
+		}
+		what := ""
+		switch sc.Variant {
+		case "preface":
+			what = "PRI * HTTP/2.0\r\n\r\nSM\r\n\r\n"
+		case "half-preface":
+			what = "PRI * HTTP/2.0\r\n"
+		}
+		kind := "grpc_nothing"
+		if what != "" {
+			kind = "grpc_" + sc.Variant
+		}
+		st, err := openStalled(kind, spec.grpcAddr, what)
+		if err != nil {
+			setupFail("raw connection to the gRPC port: %v", err)
+			break
+		}
+		stalled = append(stalled, st)
+		time.Sleep(60 * time.Millisecond)
 	case "inflight":
 		infl = startInflight(sc, spec, book, setupFail)
 		closers = append(closers, infl.closeAll)
@@ -1127,6 +1334,12 @@ func runScenario(sc Scenario, e env) (res Result) {
 		time.Sleep(time.Duration(sc.DelayUs) * time.Microsecond)
 	}
 
+	for _, st := range stalled {
+		st.obs.OpenAtSignal = !st.isClosed()
+		if !st.obs.OpenAtSignal {
+			setupFail("the server closed the stalled %s connection before the signal", st.obs.Kind)
+		}
+	}
 	// ---- the signal
 	if infl != nil {
 		infl.atSignal.Store(infl.inflight.Load())
@@ -1158,6 +1371,9 @@ func runScenario(sc Scenario, e env) (res Result) {
 	if infl != nil {
 		io := infl.finish(signalAt, waitUntil)
 		res.Inflight = &io
+	}
+	for _, st := range stalled {
+		res.Stalled = append(res.Stalled, st.finish(signalAt, time.Until(signalAt.Add(limit+1500*time.Millisecond))))
 	}
 	for _, c := range closers {
 		c()
@@ -1635,7 +1851,7 @@ func judge(res *Result, must, mustNot []Hold, limit time.Duration) {
 	}
 	procClauses("first run", &res.Run1)
 
-	if len(res.Blocked) == 0 {
+	if len(res.Blocked) == 0 && len(res.Stalled) == 0 {
 		v["blocked_error"] = "n/a"
 	}
 	for _, b := range res.Blocked {
@@ -1661,7 +1877,19 @@ func judge(res *Result, must, mustNot []Hold, limit time.Duration) {
 			fail("no_hang", "a request in flight at the signal returned only %.0f ms later", res.Inflight.LastReturnMs)
 		}
 	}
-	if len(res.Blocked) == 0 && res.Inflight == nil {
+	for _, st := range res.Stalled {
+		if st.Hold {
+			fail("blocked_error", "the stalled %s request was answered with a hold: %s", st.Kind, st.Received)
+		} else if len(res.Blocked) == 0 {
+			pass("blocked_error")
+		}
+		if !st.Closed {
+			fail("no_hang", "the stalled %s connection was still open %d ms after the signal", st.Kind, limit.Milliseconds()+1500)
+		} else if st.ClosedMs >= float64(limit.Milliseconds()) {
+			fail("no_hang", "the stalled %s connection was closed only %.0f ms after the signal", st.Kind, st.ClosedMs)
+		}
+	}
+	if len(res.Blocked) == 0 && res.Inflight == nil && len(res.Stalled) == 0 {
 		v["no_hang"] = "n/a"
 	} else {
 		pass("no_hang")
